@@ -16,6 +16,7 @@
 #include <string>
 #include <vector>
 #include <new>
+#include "mach_alloc.hpp"
 
 namespace vh {
 
@@ -202,6 +203,7 @@ struct Script {
 inline Script& script() { static Script s; return s; }
 
 inline float ScriptRng::next() {
+	HarnessScope hs;
 	Script& s = script();
 	float v;
 	const unsigned r = s.prng.below(100);
@@ -270,6 +272,7 @@ std::string observeGuard(const TControl& c) {
 template <typename TControl>
 void performRequest(TControl& c, int kind, int dest, int payload, std::string& acts) {
 	const auto id = static_cast<hfsm2::StateID>(dest);
+	ApiScope scope;
 #if VH_PAYLOAD
 	if (payload >= 0) {
 		const Payload p = makePayload(payload);
@@ -300,6 +303,7 @@ void performRequest(TControl& c, int kind, int dest, int payload, std::string& a
 		case 6: c.schedule (id); break;
 		}
 	}
+	scope.close();
 	if (!acts.empty()) acts += ";";
 	acts += "Q"; acts += KIND_LETTER[kind]; acts += ":" + std::to_string(dest) + ":" + (payload >= 0 ? std::to_string(payload) : std::string("-"));
 }
@@ -307,6 +311,7 @@ void performRequest(TControl& c, int kind, int dest, int payload, std::string& a
 #if VH_PLANS
 template <typename TControl>
 void performPlanAppend(TControl& c, int origin, int dest, int kind, int payload, std::string& acts) {
+	ApiScope scope;
 	auto plan = c.plan();
 	const auto o = static_cast<hfsm2::StateID>(origin);
 	const auto d = static_cast<hfsm2::StateID>(dest);
@@ -340,6 +345,7 @@ void performPlanAppend(TControl& c, int origin, int dest, int kind, int payload,
 		case 6: plan.schedule (o, d); break;
 		}
 	}
+	scope.close();
 	if (!acts.empty()) acts += ";";
 	acts += "PA:" + std::to_string(origin) + ":" + std::to_string(dest) + ":"; acts += KIND_LETTER[kind];
 	acts += ":" + (payload >= 0 ? std::to_string(payload) : std::string("-"));
@@ -378,19 +384,19 @@ void fullActions(TControl& c, int sid, std::string& acts, unsigned idlePercent) 
 #if VH_PLANS
 		else if (r < 55 + s.knobs.succeed) {
 			const int target = s.prng.chance(85) ? sid : s.randomState(false);
-			c.succeed(static_cast<hfsm2::StateID>(target));
+			{ ApiScope scope; c.succeed(static_cast<hfsm2::StateID>(target)); }
 			if (!acts.empty()) acts += ";";
 			acts += "S:" + std::to_string(target);
 		} else if (r < 55 + s.knobs.succeed + s.knobs.fail) {
 			const int target = s.prng.chance(85) ? sid : s.randomState(false);
-			c.fail(static_cast<hfsm2::StateID>(target));
+			{ ApiScope scope; c.fail(static_cast<hfsm2::StateID>(target)); }
 			if (!acts.empty()) acts += ";";
 			acts += "F:" + std::to_string(target);
 		} else if (r < 97) {
 			const int head = regionHeadOf(sid);
 			performPlanAppend(c, stateWithin(head), stateWithin(head), s.randomKind(true), s.randomPayload(), acts);
 		} else {
-			c.plan().clear();
+			{ ApiScope scope; c.plan().clear(); }
 			if (!acts.empty()) acts += ";";
 			acts += "PC";
 		}
@@ -403,6 +409,7 @@ bool thisMatches(const TControl&, const void* self, int slot, int inj);
 
 template <typename TControl>
 void onFull(TControl& c, int sid, int slot, MethodId m, bool thisOk) {
+	HarnessScope hs;
 	const std::string obs = observeBasic(c);
 	std::string acts;
 	fullActions(c, sid, acts, script().knobs.idle);
@@ -411,11 +418,12 @@ void onFull(TControl& c, int sid, int slot, MethodId m, bool thisOk) {
 
 template <typename TControl>
 void onEvent(TControl& c, int sid, int slot, MethodId m, bool thisOk) {
+	HarnessScope hs;
 	const std::string obs = observeBasic(c);
 	std::string acts;
 	fullActions(c, sid, acts, script().knobs.idle);
 	if (script().prng.chance(script().knobs.consume)) {
-		c.consumeEvent();
+		{ ApiScope scope; c.consumeEvent(); }
 		if (!acts.empty()) acts += ";";
 		acts += "E";
 	}
@@ -424,10 +432,11 @@ void onEvent(TControl& c, int sid, int slot, MethodId m, bool thisOk) {
 
 template <typename TControl>
 void onQuery(TControl& c, int sid, int slot, bool thisOk) {
+	HarnessScope hs;
 	const std::string obs = observeBasic(c);
 	std::string acts;
 	if (script().prng.chance(script().knobs.consume)) {
-		c.consumeQuery();
+		{ ApiScope scope; c.consumeQuery(); }
 		acts = "E";
 	}
 	cbLine(sid, slot, M_QUERY, obs, "[]", "[]", acts, thisOk);
@@ -435,6 +444,7 @@ void onQuery(TControl& c, int sid, int slot, bool thisOk) {
 
 template <typename TControl>
 void onProbe(Probe& p, TControl& c) {
+	HarnessScope hs;
 	if (!p.done) {
 		p.queue = transitionList(c.requests());
 		p.done = true;
@@ -444,6 +454,7 @@ void onProbe(Probe& p, TControl& c) {
 
 template <typename TControl>
 void onGuard(TControl& c, int sid, int slot, MethodId m, bool thisOk) {
+	HarnessScope hs;
 	Script& s = script();
 	const std::string obs = observeGuard(c);
 	const std::string pend = transitionList(c.pendingTransitions());
@@ -452,7 +463,7 @@ void onGuard(TControl& c, int sid, int slot, MethodId m, bool thisOk) {
 	if (s.prng.chance(s.knobs.guardReq))
 		fullActions(c, sid, acts, 0);
 	if (!s.firstActivation && s.prng.chance(s.knobs.cancel)) {
-		c.cancelPendingTransitions();
+		{ ApiScope scope; c.cancelPendingTransitions(); }
 		if (!acts.empty()) acts += ";";
 		acts += "X";
 	}
@@ -461,6 +472,7 @@ void onGuard(TControl& c, int sid, int slot, MethodId m, bool thisOk) {
 
 template <typename TControl>
 void onPlan(TControl& c, int sid, int slot, MethodId m, bool thisOk) {
+	HarnessScope hs;
 	Script& s = script();
 	const std::string curr = transitionList(c.currentTransitions());
 	std::string acts;
@@ -472,7 +484,7 @@ void onPlan(TControl& c, int sid, int slot, MethodId m, bool thisOk) {
 			const int head = regionHeadOf(sid);
 			performPlanAppend(c, stateWithin(head), stateWithin(head), s.randomKind(true), s.randomPayload(), acts);
 		} else {
-			c.plan().clear();
+			{ ApiScope scope; c.plan().clear(); }
 			acts = "PC";
 		}
 	}
@@ -484,6 +496,7 @@ void onPlan(TControl& c, int sid, int slot, MethodId m, bool thisOk) {
 
 template <typename TControl>
 hfsm2::Prong onSelect(const TControl& c, int sid, int slot) {
+	HarnessScope hs;
 	const std::string obs = observeBasic(c);
 	const int w = STATES[sid].width;
 	const int i = w > 0 ? static_cast<int>(script().prng.below(static_cast<unsigned>(w))) : 0;
@@ -494,6 +507,7 @@ hfsm2::Prong onSelect(const TControl& c, int sid, int slot) {
 #if VH_UTIL
 template <typename TControl>
 int8_t onRank(const TControl& c, int sid, int slot) {
+	HarnessScope hs;
 	const std::string obs = observeBasic(c);
 	const unsigned r = script().prng.below(100);
 	const int v = r < 60 ? 0 : r < 80 ? 1 : r < 90 ? -1 : 2;
@@ -503,6 +517,7 @@ int8_t onRank(const TControl& c, int sid, int slot) {
 
 template <typename TControl>
 float onUtility(const TControl& c, int sid, int slot) {
+	HarnessScope hs;
 	Script& s = script();
 	const std::string obs = observeBasic(c);
 	const unsigned r = s.prng.below(100);
